@@ -9,6 +9,7 @@ package checks
 // carry the newly assigned ids), balances and stores.
 
 import (
+	"encoding/binary"
 	"encoding/json"
 	"fmt"
 	chain "github.com/comdex-official/comdex/app"
@@ -71,6 +72,30 @@ func c20Diff(t rec.TB, r *rec.Rec, cs *c20Case, a, b dump.State, when string) (h
 			}
 			if !lockers {
 				ctx += "-no-locker-left"
+			}
+		}
+		if ch.Store == "vaultV1" && (p == "15" || p == "16") && kind == "changed" {
+			// the vault / stable-mint vault id counters: the genesis format has no field for them, InitGenesis restarts
+			// them at the highest id among the exported vaults of that kind (finding C20-F4 when a higher-numbered vault
+			// had been closed); any other value after the import is something else
+			prefix := byte(0x10)
+			if p == "16" {
+				prefix = 0x14
+			}
+			var maxLive uint64
+			for _, kv := range a {
+				if kv.Store == "vaultV1" && len(kv.Key) == 9 && kv.Key[0] == prefix {
+					if id := binary.BigEndian.Uint64(kv.Key[1:]); id > maxLive {
+						maxLive = id
+					}
+				}
+			}
+			var got uint64
+			if len(ch.B) >= 2 && ch.B[0] == 0x08 {
+				got, _ = binary.Uvarint(ch.B[1:])
+			}
+			if got == maxLive {
+				ctx += "-to-highest-live-id"
 			}
 		}
 		if seen[ctx] {
